@@ -3,10 +3,20 @@
  * list built with the real fstree code, same line protocol as `sqfsmodel c17`.
  *
  *   sort <nf> <path-hex>*nf <sortfile-hex>
- *       -> init <path-hex>... ; ok <path-hex>:<prio>:<flags>...     (order of fs->files before / after)
- *       -> init <path-hex>... ; err <kind>                          (kind = classified stderr message)
+ *       -> init <path-hex>... ; ok <path-hex>:<prio>:<flags>... ; frame <ok|changed>   (order of fs->files before / after)
+ *       -> init <path-hex>... ; err <kind> ; frame <ok|changed>     (kind = classified stderr message)
+ *       frame: a dump of every field of every tree node (but data.file.priority / data.file.flags /
+ *       FLAG_FILE_ALREADY_MATCHED / next_by_type), of fs->inodes, fs->root, fs->defaults, fs->unique_inode_count and
+ *       of the *set* of nodes on fs->files is taken before and after fstree_sort_files(); "changed" = they differ
+ *   sortx <n> <t>:<path-hex>[:<extra-hex>]*n <sortfile-hex>          same, for a tree with other node types:
+ *       t = f regular file, d directory, l symlink (extra = target), h hard link (extra = target path),
+ *       c character device, b block device, p fifo, s socket
+ *   exptbl <off> <n> (<inum> <iref>)*n   -> ok <export_table_start> <hex of the bytes appended> | err <kind>
+ *       a real sqfs_dir_writer_t created with SQFS_DIR_WRITER_CREATE_EXPORT_TABLE: sqfs_dir_writer_add_entry() for the
+ *       first n-1 pairs, then sqfs_dir_writer_write_export_table() with the last pair as root, into a memory file
+ *       that already holds <off> bytes; compressor = the one configured by cinit (none: blocks stored raw)
  *   fnmatch <pathglob 0/1> <pattern-hex> <path-hex>  -> 0 | 1       (libc, what sort_by_file.c calls)
- *   cinit <compressor> <block size>                  -> ok            (block compressor configured as sqfs_writer_init does)
+ *   cinit <compressor|raw> <block size>              -> ok            (block compressor configured as sqfs_writer_init does; raw = none)
  *   cmp <data-hex>                                   -> <out-hex> | - (do_block: "-" = returned 0, keep the input)
  *                                                                      (size oracle for the model's Codec parameter)
  */
@@ -14,11 +24,17 @@
 #include "mkfs.h"
 #include "compress_cli.h"
 #include "hexio.h"
+#include "sqfs/dir_writer.h"
+#include "sqfs/meta_writer.h"
+#include "sqfs/super.h"
+#include "sqfs/error.h"
+#include "sqfs/io.h"
 #include <fnmatch.h>
 #include <unistd.h>
 #include <fcntl.h>
 #include <sys/stat.h>
 #include <sys/mman.h>
+#include <stdarg.h>
 
 static const char *classify(const char *msg)
 {
@@ -32,8 +48,102 @@ static const char *classify(const char *msg)
 	if (strstr(msg, "Unmatched")) return "unmatched";
 	if (strstr(msg, "Unknown escape")) return "escape";
 	if (strstr(msg, "Malformed filename")) return "canon";
+	if (strstr(msg, "after quoted filename")) return "trailing";
 	if (strstr(msg, "out-of-memory") || strstr(msg, "[BUG]")) return "internal";
-	return "trailing";	/* `return -1` without a message */
+	if (msg[0] == '\0') return "silent";	/* `return -1` without a diagnostic: no path of the current code does that */
+	return "unknown-message";
+}
+
+/* ------------------------------------------------------------------ memory file + raw compressor (exptbl) */
+static unsigned char *mf_data;
+static size_t mf_used, mf_cap;
+
+static int mf_write_at(sqfs_file_t *f, sqfs_u64 off, const void *buf, size_t size)
+{
+	(void)f;
+	if (off + size > mf_cap) {
+		mf_cap = (off + size) * 2 + 4096;
+		mf_data = realloc(mf_data, mf_cap);
+		if (!mf_data) abort();
+	}
+	if (off > mf_used) memset(mf_data + mf_used, 0, off - mf_used);
+	memcpy(mf_data + off, buf, size);
+	if (off + size > mf_used) mf_used = off + size;
+	return 0;
+}
+static sqfs_u64 mf_get_size(const sqfs_file_t *f) { (void)f; return mf_used; }
+static sqfs_file_t memfile = { { 1, NULL, NULL }, NULL, mf_write_at, mf_get_size, NULL, NULL };
+
+static sqfs_s32 raw_block(sqfs_compressor_t *c, const sqfs_u8 *in, sqfs_u32 size, sqfs_u8 *out, sqfs_u32 outsize)
+{ (void)c; (void)in; (void)size; (void)out; (void)outsize; return 0; }
+static sqfs_compressor_t raw_cmp = { { 1, NULL, NULL }, NULL, NULL, NULL, raw_block };
+
+/* ------------------------------------------------------------------ frame dump */
+static char *dump_buf;
+static size_t dump_len, dump_cap;
+
+static void dput(const char *fmt, ...)
+{
+	va_list ap;
+	int n;
+	if (dump_cap - dump_len < 8192) {
+		dump_cap = dump_cap * 2 + 16384;
+		dump_buf = realloc(dump_buf, dump_cap);
+		if (!dump_buf) abort();
+	}
+	va_start(ap, fmt);
+	n = vsnprintf(dump_buf + dump_len, dump_cap - dump_len, fmt, ap);
+	va_end(ap);
+	if (n > 0) dump_len += (size_t)n < dump_cap - dump_len ? (size_t)n : dump_cap - dump_len - 1;
+}
+
+static void dump_node(tree_node_t *n)
+{
+	dput("{%p parent=%p next=%p name=%.4000s xattr=%u uid=%u gid=%u ino=%u mtime=%u links=%u mode=%o flags=%x ref=%llx",
+	     (void *)n, (void *)n->parent, (void *)n->next, n->name, n->xattr_idx, n->uid, n->gid, n->inode_num, n->mod_time,
+	     n->link_count, n->mode, n->flags & ~FLAG_FILE_ALREADY_MATCHED, (unsigned long long)n->inode_ref);
+	if (S_ISDIR(n->mode)) {
+		tree_node_t *c;
+		dput(" children=%p", (void *)n->data.children);
+		for (c = n->data.children; c != NULL; c = c->next) dump_node(c);
+	} else if (S_ISREG(n->mode)) {
+		dput(" input=%p:%.4000s inode=%p", (void *)n->data.file.input_file,
+		     n->data.file.input_file ? n->data.file.input_file : "-", (void *)n->data.file.inode);
+	} else if (S_ISLNK(n->mode)) {
+		if (n->flags & FLAG_LINK_RESOVED) dput(" target_node=%p", (void *)n->data.target_node);
+		else dput(" target=%p:%.4000s", (void *)n->data.target, n->data.target);
+	} else if (S_ISBLK(n->mode) || S_ISCHR(n->mode)) {
+		dput(" devno=%llx", (unsigned long long)n->data.devno);
+	}
+	dput("}");
+}
+
+static int cmp_ptr(const void *a, const void *b)
+{
+	const void *x = *(void *const *)a, *y = *(void *const *)b;
+	return x < y ? -1 : x > y;
+}
+
+/* everything fstree_sort_files() must leave alone */
+static char *dump_tree(fstree_t *fs)
+{
+	tree_node_t *n, **set;
+	size_t i, cnt = 0;
+	dump_len = 0;
+	dput("defaults=%u,%u,%u,%o count=%zu root=%p unresolved=%p inodes=%p:", fs->defaults.uid, fs->defaults.gid,
+	     fs->defaults.mtime, fs->defaults.mode, fs->unique_inode_count, (void *)fs->root, (void *)fs->links_unresolved,
+	     (void *)fs->inodes);
+	for (i = 0; i < fs->unique_inode_count; ++i) dput(" %p", (void *)fs->inodes[i]);
+	for (n = fs->files; n != NULL; n = n->next_by_type) ++cnt;
+	set = calloc(cnt + 1, sizeof(*set));
+	for (i = 0, n = fs->files; n != NULL; n = n->next_by_type) set[i++] = n;
+	qsort(set, cnt, sizeof(*set), cmp_ptr);
+	dput(" files(%zu)=", cnt);
+	for (i = 0; i < cnt; ++i) dput(" %p", (void *)set[i]);
+	free(set);
+	dput(" tree=");
+	dump_node(fs->root);
+	return strdup(dump_buf ? dump_buf : "");
 }
 
 static void print_files(fstree_t *fs, int with_attr)
@@ -58,6 +168,7 @@ int main(void)
 {
 	int errfd = memfd_create("verif_c17_err", 0), saved = dup(2);
 	if (errfd < 0 || saved < 0) return 2;
+	setvbuf(stdout, NULL, _IOLBF, 0);	/* after a sanitizer abort the number of answers names the line that crashed */
 
 	while (fgets(line, sizeof(line), stdin)) {
 		char *save = NULL, *op = strtok_r(line, " \n", &save);
@@ -74,6 +185,12 @@ int main(void)
 			char *a = strtok_r(NULL, " \n", &save), *b = strtok_r(NULL, " \n", &save);
 			sqfs_compressor_config_t cfg;
 			int id = a ? sqfs_compressor_id_from_name(a) : -1;
+			if (a && b && strcmp(a, "raw") == 0) {		/* no compressor: exptbl stores its blocks raw */
+				if (cmp != NULL) { sqfs_drop(cmp); cmp = NULL; }
+				cmp_bs = (size_t)atol(b);
+				puts("ok");
+				continue;
+			}
 			if (id < 0 || !b) { puts("bad-op"); continue; }
 			if (cmp != NULL) { sqfs_drop(cmp); cmp = NULL; }
 			cmp_bs = (size_t)atol(b);
@@ -95,7 +212,48 @@ int main(void)
 			free(in); free(out);
 			continue;
 		}
-		if (strcmp(op, "sort") == 0) {
+		if (strcmp(op, "exptbl") == 0) {
+			char *a = strtok_r(NULL, " \n", &save), *b = strtok_r(NULL, " \n", &save);
+			size_t off = a ? strtoull(a, NULL, 10) : 0;
+			long n = b ? atol(b) : 0, i;
+			sqfs_compressor_t *c = cmp != NULL ? cmp : &raw_cmp;
+			sqfs_meta_writer_t *dm;
+			sqfs_dir_writer_t *dw;
+			sqfs_super_t super;
+			int rc = 0, bad = 0;
+			if (!a || !b || n < 1) { puts("bad-op"); continue; }
+			mf_used = 0;
+			if (off > 0) { unsigned char z = 0; mf_write_at(&memfile, off - 1, &z, 1); }
+			memset(&super, 0, sizeof(super));
+			dm = sqfs_meta_writer_create(&memfile, c, SQFS_META_WRITER_KEEP_IN_MEMORY);
+			dw = dm ? sqfs_dir_writer_create(dm, SQFS_DIR_WRITER_CREATE_EXPORT_TABLE) : NULL;
+			if (dw == NULL || sqfs_dir_writer_begin(dw, 0)) { puts("bad-op"); if (dw) sqfs_drop(dw); if (dm) sqfs_drop(dm); continue; }
+			for (i = 0; i < n; ++i) {
+				char *x = strtok_r(NULL, " \n", &save), *y = strtok_r(NULL, " \n", &save);
+				if (!x || !y) { bad = 1; break; }
+				if (i + 1 < n)
+					rc = sqfs_dir_writer_add_entry(dw, "e", (sqfs_u32)strtoull(x, NULL, 10), strtoull(y, NULL, 10), S_IFREG | 0644);
+				else
+					rc = sqfs_dir_writer_write_export_table(dw, &memfile, c, (sqfs_u32)strtoull(x, NULL, 10),
+										strtoull(y, NULL, 10), &super);
+				if (rc) break;
+			}
+			if (bad) puts("bad-op");
+			else if (rc == SQFS_ERROR_ARG_INVALID) puts("err arg-invalid");
+			else if (rc) printf("err code%d\n", rc);
+			else if (!(super.flags & SQFS_FLAG_EXPORTABLE)) puts("err not-flagged-exportable");
+			else {
+				printf("ok %llu ", (unsigned long long)super.export_table_start);
+				hex_print(stdout, mf_data + off, mf_used - off);
+				putchar('\n');
+			}
+			sqfs_drop(dw);
+			sqfs_drop(dm);
+			continue;
+		}
+		if (strcmp(op, "sort") == 0 || strcmp(op, "sortx") == 0) {
+			int typed = op[4] == 'x';
+			char *before, *after;
 			char *t = strtok_r(NULL, " \n", &save);
 			long nf = t ? atol(t) : -1, i;
 			fstree_defaults_t fsd;
@@ -107,13 +265,40 @@ int main(void)
 			if (nf < 0) { puts("bad-op"); continue; }
 			if (parse_fstree_defaults(&fsd, NULL) || fstree_init(&fs, &fsd)) { puts("bad-op"); continue; }
 			for (i = 0; i < nf; ++i) {
-				unsigned char *p;
+				unsigned char *p, *extra = NULL;
 				sqfs_dir_entry_t *ent;
+				sqfs_u16 mode = S_IFREG | 0644;
+				sqfs_u32 eflags = 0;
+				char kind = 'f';
 				t = strtok_r(NULL, " \n", &save);
-				if (!t || hex_decode_tok(t, &p, 1) < 0) { bad = 1; break; }
-				ent = sqfs_dir_entry_create((char *)p, S_IFREG | 0644, 0);
-				if (ent == NULL || fstree_add_generic(&fs, ent, NULL) == NULL) bad = 1;
-				free(ent); free(p);
+				if (t && typed) {
+					char *x;
+					if (t[0] == '\0' || t[1] != ':') { bad = 1; break; }
+					kind = t[0];
+					t += 2;
+					x = strchr(t, ':');
+					if (x) { *x = '\0'; if (hex_decode_tok(x + 1, &extra, 1) < 0) { bad = 1; break; } }
+				}
+				if (!t || hex_decode_tok(t, &p, 1) < 0) { bad = 1; free(extra); break; }
+				switch (kind) {
+				case 'f': break;
+				case 'd': mode = S_IFDIR | 0750; break;
+				case 'l': mode = S_IFLNK | 0777; break;
+				case 'h': mode = S_IFLNK | 0777; eflags = SQFS_DIR_ENTRY_FLAG_HARD_LINK; break;
+				case 'c': mode = S_IFCHR | 0600; break;
+				case 'b': mode = S_IFBLK | 0600; break;
+				case 'p': mode = S_IFIFO | 0600; break;
+				case 's': mode = S_IFSOCK | 0600; break;
+				default: bad = 1;
+				}
+				if ((kind == 'l' || kind == 'h') && extra == NULL) bad = 1;
+				ent = bad ? NULL : sqfs_dir_entry_create((char *)p, mode, eflags);
+				if (ent != NULL) {
+					ent->uid = 1000 + (sqfs_u32)i; ent->gid = 7 * (sqfs_u32)i; ent->mtime = 1000000 + i;
+					ent->rdev = (kind == 'c' || kind == 'b') ? 0x0105 + (sqfs_u32)i : 0;
+				}
+				if (ent == NULL || fstree_add_generic(&fs, ent, (char *)extra) == NULL) bad = 1;
+				free(ent); free(p); free(extra);
 				if (bad) break;
 			}
 			t = strtok_r(NULL, " \n", &save);
@@ -126,16 +311,17 @@ int main(void)
 			fflush(stdout);
 			ms = istream_memory_create("sortfile", 61, (char *)sf, (size_t)sflen);
 			if (ftruncate(errfd, 0) || lseek(errfd, 0, SEEK_SET) < 0) return 2;
+			before = dump_tree(&fs);
 			fflush(stderr);
 			dup2(errfd, 2);
 			ret = fstree_sort_files(&fs, ms);
 			fflush(stderr);
 			dup2(saved, 2);
 			sqfs_drop(ms);
+			after = dump_tree(&fs);
 			if (ret == 0) {
 				fputs("ok", stdout);
 				print_files(&fs, 1);
-				putchar('\n');
 			} else {
 				static char msg[1 << 16];
 				ssize_t n = pread(errfd, msg, sizeof(msg) - 1, 0);
@@ -150,8 +336,10 @@ int main(void)
 					p = e + 1;
 				}
 				if (strncmp(last, "WARNING:", 8) == 0) last = "";
-				printf("err %s\n", classify(last));
+				printf("err %s", classify(last));
 			}
+			printf(" ; frame %s\n", strcmp(before, after) == 0 ? "ok" : "changed");
+			free(before); free(after);
 			fstree_cleanup(&fs);
 			free(sf);
 			continue;
